@@ -124,4 +124,12 @@ CHECKS = {
          "builtins - this covers paths no input exercises; (2) success and error paths are provoked and no NameError/SyntaxError/library-made AttributeError "
          "may appear in any exception chain; decoded objects must be instances of the very annotated class; DefaultDict factories must be classes or None.",
     note="two open findings (classes bound by name instead of identity: not-a-module-attribute and twin qualified names) attributed by scenario site + clause; subclasses of builtins are accepted as their base class"),
+ "C05": dict(engine="E1 schema-space", design_ref="6/C05",
+    technique="exhaustive enumeration of dataclass layouts x configurations x whole-argument pool, single- and pair-field corruptions against a first-bad-field reference",
+    text="Every layout of 1-3 fields over 20 field types (required/defaulted/nullable) x {default, forbid_extra_keys, allow_deserialization_not_by_alias, "
+         "lazy, plain-dataclass codec, class-level discriminator} x inputs (21 pool members as the whole argument, every single-field corruption by removal "
+         "or by every pool member the reference rejects, every pair of corrupted fields, unknown key): the outcome is an instance or exactly the documented "
+         "exception naming the first bad field in declaration order, with the offending input value and holder class; nothing rejected is replaced by None "
+         "or a default; the input is unchanged; no NameError/SyntaxError in the chain.",
+    note="trusted base: vmc/ref.py decode per field; open findings attributed by deviation models (Union None fallback, NamedTuple IndexError swallow) or scenario facts (discriminator TypeError, empty dataclass)"),
 }
